@@ -93,6 +93,38 @@ func genNext(r *hx.Rand, p profile, kind string) func(map[string]bool, int) *sOp
 	}
 }
 
+// fixedNext replays a written-out schedule (operations whose actor is still busy are dropped)
+func fixedNext(ops []sOp) func(map[string]bool, int) *sOp {
+	i := 0
+	return func(busy map[string]bool, round int) *sOp {
+		for i < len(ops) {
+			op := ops[i]
+			i++
+			if op.actor == "ENV" || !busy[op.actor] {
+				return &op
+			}
+		}
+		return nil
+	}
+}
+
+// runFixedSchedules runs a corpus of written-out schedules as cases of profile name
+func runFixedSchedules(o *hx.Out, name string, kinds []string, corpus [][]sOp) {
+	for _, kind := range kinds {
+		for _, ops := range corpus {
+			res := runSchedule(kind, fixedNext(ops))
+			if res.unsettled {
+				continue
+			}
+			desc := map[string]interface{}{"transport": "inprocgrpc", "stream_kind": kind, "rounds": roundsDesc(res.rounds), "panicked": res.panicked, "goroutines_left": res.leaked, "schedule": "written out"}
+			if res.panicked {
+				o.Violate("an operation of the in-process stream panicked", desc, "panic", nil)
+			}
+			o.Case(name+"_"+kind, fmt.Sprintf("Sched %s %s %s %s %s", hx.Str(name), hx.B(kind != "CS"), roundsTerm(res.rounds), hx.B(res.panicked), hx.B(res.leaked)), desc)
+		}
+	}
+}
+
 func runStreamProfile(o *hx.Out, r *hx.Rand, p profile, n int) {
 	unsettled := 0
 	for i := 0; i < n; i++ {
